@@ -1347,6 +1347,12 @@ def judge(prog, out, chk, findings, stats):
     has_cyc_err = any(d and d[0] == 1 for d in diag)
     if cyc and not out["errors"]:
         fails.append({"what": "cycle-accepted"})
+    elif cyc and out["errors"] and all(name_id(c["name"]) in {n for n, _, _ in prog} and c["kind"] is not None for c in out["consts"]):
+        fails.append({"what": "cycle-member-published", "diagnostics": [m for _, m in out["errors"]]})
+    # (6) an undeclared name anywhere in an initializer (whatever the evaluation order) makes the program rejected
+    undeclared = sorted({cname(x) for _, e in decl.values() for x in idents(e) if x not in decl})
+    if undeclared and not out["errors"]:
+        fails.append({"what": "undeclared-name-accepted", "names": undeclared})
     if has_cyc_err and not cyc:
         fails.append({"what": "cycle-error-without-cycle", "diagnostics": [m for _, m in out["errors"]]})
     return fails
@@ -1419,6 +1425,9 @@ def run(chk):
         for p in graph_programs(n, all_graphs(n)):
             progs.append(("graph%d" % n, p))
     for k, p in arm_programs():
+        progs.append((k, p))
+    sc_progs = shortcircuit_programs()
+    for k, p in sc_progs:
         progs.append((k, p))
     deep = []
     for k, p in scale_programs(quick):
@@ -1596,6 +1605,8 @@ def run(chk):
     if not quick:
         build_tier(chk, rng, stats, fails)
 
+    function_body_agreement(binary, [p for k, p in sc_progs if k == "shortcircuit:defect"],
+                            {src_prog(p): o for (k, p), o in zip(progs, impl)}, chk, stats, fails)
     deep_chains(binary, deep, chk, stats, fails)
     spec_corpus(binary, stats, fails)
     repo_corpus(binary, chk, stats, fails)
@@ -1627,8 +1638,12 @@ def run(chk):
                                             "operators, index, slice (all 8 shapes), tuple/list/set/dict, Paren/Call/self")
     for _, p in progs[:2] + progs[-4:]:
         chk.sample(src_prog(p, main=False))
-    for f in fails[:20]:
-        chk.violation("failing-input", f)
+    per_kind = collections.defaultdict(list)
+    for f in fails:
+        per_kind[f.get("what")].append(f)
+    for fl in per_kind.values():            # a frequent kind of failure must not hide a second one
+        for f in fl[:max(3, 20 // len(per_kind))]:
+            chk.violation("failing-input", f)
     if not fails:
         if corr_bad:
             chk.violation("correspondence-broken", {"theorem_or_tie": "C06 model/implementation correspondence", "cases": corr_bad[:8]}, no_input=True)
@@ -1655,6 +1670,81 @@ SPEC = [
     ("const X: List[int] = [1, 2.5]\n", None, "Type mismatch"),
     ("const X: int = 1\nconst Y: List[int] = [X, X]\n", "int", None),
 ]
+
+
+def shortcircuit_programs():
+    """`and` / `or` whose LEFT operand decides the result at run time, with something in the RIGHT operand that must not
+    go unnoticed at compile time: a dependency-cycle edge (self cycle, 2- and 3-rings; directly, under `not`, inside a
+    nested and/or) or a defect a function body would be rejected for (undeclared name, ill-typed operand)."""
+    out = []
+    T, F = lit("bool", True), lit("bool", False)
+    D = 9        # const C9 = <deciding literal>: a decider that is a const reference
+    deciders = [("and", F, None), ("or", T, None), ("and", node(("un", "not"), T), None), ("or", node(("un", "not"), F), None),
+                ("and", ("id", D), F), ("or", ("id", D), T), ("or", node(("bin", "or"), T, F), None)]
+    wraps = [lambda x: x, lambda x: node(("un", "not"), x), lambda x: node(("bin", "and"), x, T),
+             lambda x: node(("bin", "and"), T, x), lambda x: node(("bin", "or"), F, x)]
+
+    def guarded(op, left, x):
+        ll, rl = operand_levels(("bin", op))
+        assert level(left) >= ll
+        return node(("bin", op), left, x if level(x) >= rl else x)
+
+    for n in (1, 2, 3):
+        for op, left, dval in deciders:
+            for w in wraps:
+                for guarded_edges in ("all", "first"):
+                    prog = []
+                    for i in range(n):
+                        nxt = ("id", (i + 1) % n)
+                        body = w(nxt)
+                        if level(body) < operand_levels(("bin", op))[1]:
+                            continue
+                        e = node(("bin", op), left, body) if (guarded_edges == "all" or i == 0) else nxt
+                        prog.append((i, "bool", e))
+                    if len(prog) != n:
+                        continue
+                    if dval is not None:
+                        prog.append((D, "bool", dval))
+                    out.append(("shortcircuit:cycle", prog))
+    bads = [("id", -1), node(("un", "not"), ("id", -2)), node(("un", "not"), lit("int", 1)), node(("bin", "and"), lit("int", 1), T),
+            node(("bin", "<"), lit("str", "a"), lit("int", 1)), node(("bin", "=="), node(("bin", "+"), lit("int", 1), lit("str", "a")), lit("int", 2)),
+            node(("bin", "and"), ("id", -1), T), node(("bin", "in"), lit("int", 1), lit("int", 2))]
+    for op, left, dval in deciders + [("and", T, None), ("or", F, None)]:       # the last two: left does NOT decide
+        for bad in bads:
+            if level(bad) < operand_levels(("bin", op))[1]:
+                continue
+            prog = [(0, "bool", node(("bin", op), left, bad))]
+            if dval is not None:
+                prog.append((D, "bool", dval))
+            out.append(("shortcircuit:defect", prog))
+    return out
+
+
+def function_body_agreement(binary, defect_progs, impl_by_src, chk, stats, fails):
+    """a const initializer that is ACCEPTED must also be accepted as the body expression of a function: check the same
+    expression in `def probe() -> bool: return <e>` with the real checker; rejected there but accepted as a const
+    (nothing reported, const published) is under-reporting.  (Over-reporting in a dead right operand is the listed
+    finding eager-and-or and is not judged here.)"""
+    texts = []
+    for p in defect_progs:
+        n, a, e = p[0]
+        lines = ["const %s: bool = %s" % (cname(m), src(x)) for m, _, x in p[1:]]
+        lines += ["", "def probe() -> bool:", "    return %s" % src(e), "", "def main() -> None:", "    println(probe())"]
+        texts.append("\n".join(lines) + "\n")
+    outs = [json.loads(l) for l in vlib.run_harness(binary, ["run", "c06"],
+                                                    "\n".join(json.dumps({"src": t, "emit": False}) for t in texts) + "\n").split("\n") if l]
+    stats.update({"function_body_pairs": len(texts), "function_body_rejected": 0})
+    for p, t, fb in zip(defect_progs, texts, outs):
+        as_const = impl_by_src.get(src_prog(p))
+        if fb.get("parse") != "ok" or as_const is None or as_const.get("parse") != "ok":
+            continue
+        chk.count_case("fnbody:" + t)
+        if fb["errors"]:
+            stats["function_body_rejected"] += 1
+            if not as_const["errors"]:
+                fails.append({"what": "accepted-as-const-rejected-in-function-body", "program": src_prog(p),
+                              "function_body_program": t, "function_body_diagnostics": [m for _, m in fb["errors"]][:3],
+                              "const_published": as_const["consts"][0]})
 
 
 DEEP_CHAIN = 200
